@@ -110,6 +110,13 @@ pub fn new(parameters: &RawParameters, _ctx: &dyn Context) -> Result<Op, Error> 
     let def = &parameters.definition;
     let mut params = ParsedParameters::new(parameters, &GAMUT)?;
 
+    // An explicitly given `ellps` overrides `ellps_0`, but `ellps` is always present
+    // (by default), so without further ado, `ellps_0` would never get a word in
+    if params.given.contains_key("ellps_0") && !params.given.contains_key("ellps") {
+        let ellps_0 = params.text("ellps_0")?;
+        params.text.insert("ellps", ellps_0);
+    }
+
     let ellps_0 = params.ellps(0);
     let ellps_1 = params.ellps(1);
 
